@@ -10,6 +10,8 @@ pub use core::task::{Context, Poll, RawWaker, RawWakerVTable, Waker};
 pub use std::boxed::Box;
 pub use std::nd;
 pub use std::vec::Vec;
+/// the prelude's `String` is modelled by the arena string the `format!` model produces (an expansion may name the type of a formatted value)
+pub type String = std::mstr::MStr;
 
 // ---------------------------------------------------------------------------------------------
 // assertion / witness macros: the same harness body runs under Kani and in the native replay
